@@ -77,6 +77,9 @@ class ServeTask(Task):
         msg = Env("msg", cls=I.repo.cls(f"{DP}:{['C_STORE', 'C_FIND', 'N_GET'][I.choose(3, 'request type')]}"))
         msg.attrs["is_valid_request"] = I.input("bool", "is_valid_request")
         msg.attrs["msg_type"] = "X-RQ"
+        mid = I.input("int", "MessageID")
+        I.assume(z3.And(mid.e >= 0, mid.e <= 65535))
+        msg.attrs["MessageID"] = mid
         which = I.choose(3, "SOP class attribute")
         msg.attrs["AffectedSOPClassUID"] = Env("affected_uid") if which == 0 else None
         msg.attrs["RequestedSOPClassUID"] = Env("requested_uid") if which == 1 else None
